@@ -147,7 +147,8 @@ class C07(Check):
                    'unmutated lines; compared only when every mutated line was answered with an error report and '
                    'polling is off (timestamps masked)']
     PROBES = ('c07.invalid-utf8', 'c07.bad-json', 'c07.cut-inside-line', 'c07.recv-timeout-inside-line',
-              'c07.concurrent-updates', 'c07.long-line', 'c07.reference-compared', 'c07.churn-connection')
+              'c07.concurrent-updates', 'c07.long-line', 'c07.reference-compared', 'c07.churn-connection',
+              'c07.stalled-reader')
 
     def gen_case(self, rng, tier):
         specs = [genmod.gen_module_spec(rng, f'm{i}', depth=rng.choice([1, 2]), full=True)
@@ -180,6 +181,7 @@ class C07(Check):
                  'cuts': sorted(rng.sample(range(1, 4000), rng.choice([0, 0, 1, 3, 8, 30]))),
                  'cut_gap': rng.choice([0, 0.01, 1.5, 3.2]),
                  'second': rng.choice([None, 'idle', 'activated', 'logging']),
+                 'stalled': rng.choice([None] * 6 + [40, 200]),
                  # further connections which activate and leave again while the requests are being handled
                  'churn': [[rng.choice([0, 0, 0.001, 0.01, 0.1]), rng.choice([0, 0, 0.001, 0.01])]
                            for _ in range(rng.choice([0, 0, 1, 3, 6]))],
@@ -229,6 +231,14 @@ class C07(Check):
             elif shape['second'] == 'logging':
                 second.request('logging . "debug"')
                 ctx['second_requests'] = 1
+        if shape.get('stalled'):
+            # a peer which asks for events and never reads: its socket buffers fill up, the node must give it up
+            # (send time-out) instead of waiting for it with the dispatcher lock held
+            sim.count('c07.stalled-reader')
+            st = nodeworld.RawClient(world, 10767)
+            world.handlers[st.hidx]['sock'].peer.rcvbuf = shape['stalled']
+            st.send(b'activate\n' * 3)
+            ctx['stalled_client'] = st
         cl = nodeworld.RawClient(world, 10767)
         ctx['client'] = cl
         ctx['second'] = second
